@@ -505,7 +505,7 @@ PROBES = {"D9": [("histories_sampled", _D9_PROBE)]}
 
 SUBS = [
     Sub("histories_sampled", check, strategy=_hist_strategy, quick=220, thorough=6000, shards=16, shrink_quick=False,
-        floors={"nt": 0.3, "refit_other_data": 0.1, "copy_after_fit": 0.15, "est:to": 0.05, "est:eg": 0.1, "est:gs": 0.1,
+        floors={"nt": 0.254, "refit_other_data": 0.1, "copy_after_fit": 0.146, "est:to": 0.05, "est:eg": 0.1, "est:gs": 0.1,
                 "est:cr": 0.05, "est:adv": 0.05}),
     Sub("histories_exhaustive", check, enumerate=_enumerate, shards=16, exhaustive=True),
 ]
